@@ -500,6 +500,49 @@ def gate_and_report(prop, judge_name, case, verdict, seed):
     return path, v, tried
 
 
+def run_extra(prop, what, n, seed):
+    """Extra xzsim cases folded into an lzsim-based check (used by C13 for
+    xz --list). Returns (rc, reported, counters, ncases, nfeatures)."""
+    import multiprocessing
+    import xz_list
+    if not xzsim.build():
+        return 2, [], {}, 0, 0
+    rng = random.Random(seed * 104729 + 13)
+    cases = xz_list.cases(rng, n)
+    globals()["judge_list"] = xz_list.judge_list
+    with multiprocessing.Pool(xzsim.JOBS) as pool:
+        verdicts = pool.map(xzsim._run_one, [(c, "xz_list", "judge_list") for c in cases], chunksize=4)
+    counters = {}
+    feats = set()
+    viols = {}
+    rc = 0
+    for c, vd in zip(cases, verdicts):
+        for k, v in vd["counters"].items():
+            counters[k] = counters.get(k, 0) + v
+        feats.update(vd["features"])
+        if vd["viol"]:
+            if vd["viol"]["cls"] == "harness":
+                log("harness failure in xz --list cases: " + vd["viol"]["msg"][-600:])
+                rc = 2
+                continue
+            viols.setdefault(vd["viol"]["cls"], []).append((c, vd))
+    reported = []
+    for cls, lst in sorted(viols.items()):
+        c, vd = lst[0]
+        out = gate_and_report(prop, "judge_list", c, vd, seed)
+        if out is None:
+            rc = 2
+            continue
+        path, v, tried = out
+        log("VIOLATION property=%s replay=%s" % (prop, path))
+        log("  class=%s occurrences=%d" % (cls, len(lst)))
+        log("  " + v["msg"][:1200].replace("\n", "\n  "))
+        reported.append({"class": cls, "replay": path, "occurrences": len(lst)})
+        if rc == 0:
+            rc = 1
+    return rc, reported, counters, len(cases), len(feats)
+
+
 def load_findings():
     p = os.path.join(V, "known_findings.json")
     return json.load(open(p)).get("findings", []) if os.path.exists(p) else []
